@@ -147,6 +147,9 @@ class Script:
         if k == "write":
             nch = r.choice([0, 1, 2, 3, 5, 8])
             chunks = [r.choice(CHUNKS) for _ in range(nch)]
+            if chunks and r.random() < 0.06:
+                # one chunk far longer than everything written before it (growth requests much larger than the current capacity)
+                chunks[r.randrange(len(chunks))] = "".join("0123456789abcdefghijklmnopqrstuvwxyz"[i % 36] for i in range(r.choice([4097, 4200, 5000, 9000])))
             mode = r.choice(["buffer", "fixed"]) if self.lang == "c" else "buffer"
             size = r.choice([1, 2, 3, 4, 5, 8, 16, 17, 18, 32, 64])
             if chunks and r.random() < 0.5:
@@ -546,6 +549,8 @@ def mutate(p, bits):
 
 
 def rust_str_lit(s):
+    if len(s) > 200 and s.isalnum() and s.isascii():
+        return '"' + s + '"'
     return '"' + "".join("\\u{%x}" % ord(c) for c in s) + '"'
 
 
